@@ -13,6 +13,7 @@ import (
 
 	"mcrt"
 
+	"github.com/VividCortex/ewma"
 	"github.com/vbauerster/mpb/v8/decor"
 )
 
@@ -32,6 +33,7 @@ type X struct {
 	Notes        []string
 	sharedWC     [4]decor.WC
 	sharedInit   [4]bool
+	sharedAvg    ewma.MovingAverage
 	WaitStep     int // step at which Progress.Wait returned (0 = did not)
 	WritesAtWait int
 	ShutAtWait   []int // listener notification counts at the moment Wait returned
